@@ -317,6 +317,8 @@ def act_step(act):
         k = act["kind"]
         if k in ("restart", "upgrade"):
             return {"op": "migrate", "cls": k}
+        if k == "distribute":
+            return {"op": "distribute"}
         return {"op": "restore", "log": act["log"], "cls": {"future": "future1h"}.get(k, k)}
     raise ValueError(act)
 
